@@ -95,7 +95,7 @@ theorem gcStep_QS (acc : Ctx × Option Nat) (k : Nat) (h : QS acc.1.seg) : QS (g
   · exact h
 
 theorem gc_QS (c : Ctx) (a : Option Nat) (h : QS c.seg) : QS (collectGarbage c a).1.seg := by
-  unfold collectGarbage
+  rw [collectGarbage_fst]; unfold gcCells
   generalize (List.range (c.size - 1)) = ks
   have : ∀ (ks : List Nat) (acc : Ctx × Option Nat), QS acc.1.seg → QS (ks.foldl gcStep acc).1.seg := by
     intro ks
@@ -184,9 +184,9 @@ theorem gcStep_JO (acc : Ctx × Option Nat) (k : Nat) {l : List Nat} (h : JO acc
     · exact h
   · exact h
 
-theorem gc_JO (c : Ctx) (a : Option Nat) {l : List Nat} (h : JO c l a) :
-    JO (collectGarbage c a).1 l (collectGarbage c a).2 := by
-  unfold collectGarbage
+theorem gcCells_JO (c : Ctx) (a : Option Nat) {l : List Nat} (h : JO c l a) :
+    JO (gcCells c a).1 l (gcCells c a).2 := by
+  unfold gcCells
   generalize (List.range (c.size - 1)) = ks
   have : ∀ (ks : List Nat) (acc : Ctx × Option Nat), JO acc.1 l acc.2 → JO (ks.foldl gcStep acc).1 l (ks.foldl gcStep acc).2 := by
     intro ks
@@ -194,6 +194,45 @@ theorem gc_JO (c : Ctx) (a : Option Nat) {l : List Nat} (h : JO c l a) :
     | nil => intro acc h; exact h
     | cons k rest ih => intro acc h; exact ih _ (gcStep_JO acc k h)
   exact this ks (c, a) h
+
+/-- the last step of `collectGarbage`: a cursor on the deleted former first slot moves to the head of the stream, so the
+cursor handed back is null or a slot of the stream -/
+theorem offDeleted_mem {r : Ctx × Option Nat} {l : List Nat} (h : JO r.1 l r.2) : ∀ x, (offDeleted r).2 = some x → x ∈ l := by
+  intro x hx
+  unfold offDeleted at hx
+  rcases h.isok with h0 | ⟨i, h1, h2⟩ | ⟨d, h1, h2, h3, h4, h5, h6⟩
+  · rw [h0] at hx; simp only [] at hx; rw [h0] at hx; cases hx
+  · rw [h1] at hx
+    simp only [] at hx
+    rw [(h.clean.live i h2).1] at hx
+    simp only [Bool.false_eq_true, if_false] at hx
+    rw [h1] at hx; cases hx; exact h2
+  · rw [h1] at hx
+    simp only [] at hx
+    rw [h3] at hx
+    simp only [if_true] at hx
+    rw [h5, Option.none_or, h4] at hx
+    exact head?_mem hx
+
+theorem offDeleted_live {r : Ctx × Option Nat} {l : List Nat} (h : JO r.1 l r.2) (hc : r.2 = none ∨ ∃ x, r.2 = some x ∧ x ∈ l) :
+    offDeleted r = r := by
+  unfold offDeleted
+  rcases hc with h0 | ⟨x, h1, h2⟩
+  · rw [h0]
+  · rw [h1]
+    simp only []
+    rw [(h.clean.live x h2).1]
+    simp
+
+theorem gc_mem (c : Ctx) (a : Option Nat) {l : List Nat} (h : JO c l a) : ∀ x, (collectGarbage c a).2 = some x → x ∈ l :=
+  offDeleted_mem (gcCells_JO c a h)
+
+theorem gc_JO (c : Ctx) (a : Option Nat) {l : List Nat} (h : JO c l a) :
+    JO (collectGarbage c a).1 l (collectGarbage c a).2 := by
+  have h1 := gcCells_JO c a h
+  have h2 := gc_mem c a h
+  rw [collectGarbage_fst]
+  exact JO.mk' h1.linked h1.clean (isok_opt_mem h2) h1.hw h1.alloc
 
 /-- `*map = is` followed by reading the cell back -/
 theorem storeIs_read (c : Ctx) (h : 0 ≤ c.map ∧ c.map.toNat < c.smap.size) :
